@@ -34,6 +34,7 @@ def main (args : List String) : IO UInt32 := do
   | ["cmap"] => loop stdin stdout Cmap.step; return 0
   | ["zones"] => loop stdin stdout Zones.step; return 0
   | ["heap"] => loop stdin stdout Heap.step; return 0
+  | ["lines"] => loop stdin stdout Heap.stepLines; return 0
   | ["assoc"] => loop stdin stdout Assoc.step; return 0
   | ["lz4io"] => loopIO stdin stdout Lz4.stepIO; return 0
   | _ => IO.eprintln "usage: grdriver <mode>"; return 2
